@@ -15,6 +15,8 @@ DLC = 2
 
 
 def msg(side, i, size):
+    if isinstance(size, (list, tuple)):     # sizes cycle per message index
+        size = size[i % len(size)]
     head = ('%s%03d:' % (side, i)).encode()
     return (head + bytes((i * 29 + k) & 0xFF for k in range(size)))[:max(
         size, len(head))]
@@ -235,6 +237,14 @@ def configs(tier):
         out.append(dict(rw=rw, n=n if max(rw) == 1 or not thorough
                         else (18, 6), miu=129, size=129,
                         agf=True, acks=False, busy=False))
+    # messages of different sizes (a large I PDU that does not fit into the
+    # aggregate followed by a small one), windows >= 2, aggregation on
+    for rw in ((1, 3), (3, 3)) if thorough else ((1, 3),):
+        out.append(dict(rw=rw, n=(6 if thorough else 5, 0), miu=128,
+                        size=(100, 100, 10), agf=True, acks=False,
+                        busy=False))
+        out.append(dict(rw=rw, n=(4, 2) if thorough else (3, 1), miu=128,
+                        size=(120, 7, 100), agf=True, acks=False, busy=False))
     # receiver busy toggles
     for rw in ((1, 1), (2, 2)):
         out.append(dict(rw=rw, n=(5 if thorough else 3, 0), miu=128, size=2,
